@@ -33,6 +33,55 @@ class Sh(ld.DiffRunner):
             self.run_program(funcs, prog, "errors/" + self.route, loopy=False)
             if self.res["counters"].get("worker_crashes", 0) > CRASH_BUDGET: return
 
+    def header_errors(self):
+        """the failing operation is the loop/condition *header* itself (also failures no handler can catch): whatever the outcome, no
+        control state, constraint or table lock is left and the context runs the standard probe afterwards (no reference model involved)"""
+        headers = ["forall $x in t loop c = c + 1; end loop;", "forall $x in w desc loop nop; end loop;", "for i in 1 to 3 step 0 loop c = c + 1; end loop;",
+                   "for i in 1 / 0 to 3 loop c = c + 1; end loop;", "for i in 1 to 3 / 0 loop c = c + 1; end loop;", "for i in 1 to 3 step 1 / 0 loop nop; end loop;",
+                   "forall e in tt.at(5) loop c = c + 1; end loop;", "forall e in tt.at(1 / 0) loop nop; end loop;", "while 1 / 0 > 1 loop nop; end loop;",
+                   "if 1 / 0 > 0 then c = 1; end if;", "if false then nop; elsif chr(300) == \"x\" then c = 2; end if;", "for $k in 1 to 3 loop forall $x in t loop nop; end loop; end loop;",
+                   "forall e in t loop forall $x in w loop nop; end loop; end loop;", "for i in 1 to 2 loop for j in 1 to 2 step i - 1 loop c = c + 1; end loop; end loop;"]
+        wraps = ["%s", "begin %s exception when others then c = -1; end;", "begin %s exception when divide_by_zero then c = -2; when out_of_range then c = -3; end;",
+                 "for q in 1 to 2 loop begin %s exception when others then c = -1; end; end loop;", "forall g in w loop %s end loop;",
+                 "begin begin %s exception when oops then nop; end; exception when others then c = -4; end;",
+                 "function hf return integer is begin %s return 1; end; begin c = hf(); exception when others then c = -5; end;"]
+        pre = 'a = 1; b = 2; c = 0; d = int(); p = true; q = bool(); s = "ab"; u = ""; t = tab(2, 4); w = tab(2, 0); tt = tab(2, tab(1, 1));\n'
+        k, n = self.desc["k"], self.desc["n"]
+        idx = 0
+        for h in headers:
+            for wr in wraps:
+                idx += 1
+                if idx % n != k: continue
+                text = pre + (wr % h) + "\n"
+                ops = self.ops_for(text)
+                r = self.probe.case(ops)
+                self.res["evaluations"] += 1; bump(self.res, "header_error_programs")
+                if r.timeout: self.res["inconclusive"] += 1; continue
+                if r.crashed:
+                    bump(self.res, "worker_crashes")
+                    add_violation(self.res, "C07|crash:%s" % r.sig, "header-error program crashed: %s" % r.sig, {"ops": ops, "program": text, "report": r.report[-3000:]}); continue
+                rep = r.replies
+                if self.route == "istmt":
+                    rep = [rep[0], "perr" + rep[1][4:] if rep[1].startswith("perr") else "ok", rep[1], rep[2], rep[3], "perr" + rep[4][4:] if rep[4].startswith("perr") else "ok", rep[4], rep[5]]
+                if not rep[1].startswith("ok"):
+                    bump(self.res, "header_error_programs_refused_at_compile_time"); continue
+                ioc, intr, out, steps = ld.impl_outcome(rep[2], self.E)
+                if intr:
+                    self.viol("non-termination|header", "`%s` still running after 20000 statements" % (wr % h), ops, text); continue
+                bad, d = ld.residue(rep[3])
+                if bad:
+                    self.viol("residue|" + bad[0].split()[0], "after `%s` (%s): %s" % (wr % h, ioc, "; ".join(bad)), ops, text); continue
+                live = int(d["kw"].get("live", "0")); nfn = int(d["kw"].get("nfn", "0")); cached = int(d["kw"].get("cached", "0"))
+                if live != 1 + nfn + cached:
+                    self.viol("context-conservation", "after `%s`: %d live contexts, expected 1 + %d + %d" % (wr % h, live, nfn, cached), ops, text); continue
+                if not rep[5].startswith("ok") or not rep[6].startswith("ok"):
+                    self.viol("probe-rejected", "after `%s` (%s) the probe program is refused: %s / %s" % (wr % h, ioc, rep[5][:100], rep[6][:100]), ops, text); continue
+                pm = ld.markers(unhx(rfields(rep[6])[2].get("out", "-")))
+                if pm != ["@@P:3 3 2"]:
+                    self.viol("probe-output", "after `%s` the probe printed %r" % (wr % h, pm), ops, text); continue
+                self.res["nontrivial"].add(case_hash(text))
+                bump(self.res, "header_error_outcome_" + ioc[0])
+
     def placements(self):
         """every placement of one failing operation in a fixed nest, with every handler-name combination"""
         fails = [("raise", "oops"), ("raise", "divide_by_zero"), ("raise", "out_of_range"), ("assign", "c", ("bin", "/", ("int", 1), ("int", 0))),
@@ -98,6 +147,7 @@ def plan(tier, seed):
     sh = []
     for i, route in enumerate(["cpp", "capi", "istmt"]):
         for k in range(2): sh.append({"kind": "placements", "k": k, "n": 2, "seed": seed, "tier": tier, "route": route})
+        sh.append({"kind": "header_errors", "k": 0, "n": 1, "seed": seed, "tier": tier, "route": route})
         for k in range(3): sh.append({"kind": "programs", "k": k + 10 * i, "n": 3, "seed": seed, "tier": tier, "route": route})
     return sh
 
@@ -106,6 +156,7 @@ def run_shard(desc):
     s = Sh(desc)
     try:
         if desc["kind"] == "placements": s.placements()
+        elif desc["kind"] == "header_errors": s.header_errors()
         else: s.programs()
     finally:
         s.probe.close()
